@@ -141,21 +141,21 @@ def ptrPaths {ν : Type} (passes : List ((String → Bool) × Entries String ν)
 
 /-! ## the working directory (restclient.getPkgDir)
 
-`getPkgDir` resolves the import path of a parameter struct's package with `build.Import(importPath, "", build.FindOnly)`: the empty
-source directory makes the go command run in the PROCESS's working directory, so the path is looked up in the module context of
-the directory the command was started in - not in that of the package that is being generated (`[dir]`).  A module context is
-`import path ↦ directory`. -/
+`getPkgDir` resolves the import path of a parameter struct's package through go/build.  Before fix eb01b4a it called
+`build.Import(importPath, "", build.FindOnly)`: the empty source directory made the go command run in the PROCESS's working
+directory, so the path was looked up in the module context of the directory the command was started in (`getPkgDirBefore`).
+Since eb01b4a the source directory and `build.Context.Dir` are the (absolute) directory of the package being generated
+(`[dir]`): the context of the package decides, wherever the command is started.  A module context is `import path ↦ directory`. -/
 
 abbrev ModCtx := Entries String String
 
-/-- the code: the context of the working directory decides -/
-def getPkgDir (cwdCtx : ModCtx) (importPath : String) : Option String := get cwdCtx importPath
+/-- the code at HEAD: the context of the package being generated decides; the working directory's context is not consulted -/
+def getPkgDir (_cwdCtx pkgCtx : ModCtx) (importPath : String) : Option String := get pkgCtx importPath
+
+/-- the code before eb01b4a: the context of the working directory decided -/
+def getPkgDirBefore (cwdCtx _pkgCtx : ModCtx) (importPath : String) : Option String := get cwdCtx importPath
 
 /-- the property: the directory the import path has for the package being generated (what the type checker used) -/
 def pkgDirSpec (pkgCtx : ModCtx) (importPath : String) : Option String := get pkgCtx importPath
-
-/-- finding region: the working directory lies in a module context that resolves the path differently (another module that
-    provides the same import path, a replaced or vendored copy, no module at all) -/
-def F_pkgDirCwd (cwdCtx pkgCtx : ModCtx) (importPath : String) : Bool := getPkgDir cwdCtx importPath != pkgDirSpec pkgCtx importPath
 
 end ShootVerif.DetOrder
